@@ -16,5 +16,18 @@ def ensure_faketime():
     return FAKETIME
 
 
+SCHED = os.path.join(build.BUILD, "sched.so")
+
+
+def ensure_sched():
+    src = os.path.join(build.VERIF, "interpose", "sched.c")
+    with build.Lock("aux"):
+        if not os.path.exists(SCHED) or os.path.getmtime(SCHED) < os.path.getmtime(src):
+            build.run(["gcc", "-O2", "-shared", "-fPIC", "-o", SCHED + ".tmp", src, "-ldl"], what="gcc sched.so")
+            os.replace(SCHED + ".tmp", SCHED)
+    return SCHED
+
+
 def ensure_all():
     ensure_faketime()
+    ensure_sched()
